@@ -69,6 +69,19 @@ func (c *cases) lists(vals []*ga.Val) (out []*ga.Val, seeds []bool) {
 		}
 		add(k == 0, slice(g.Fresh(), es, nil))
 	}
+	// sort.Slice switches from insertion sort to pdqsort above 12 elements: one list beyond that
+	// in every tier (heap sort / ninther paths need far longer lists: thorough only)
+	long := []int{13 + c.r.Intn(8)}
+	if c.thorough {
+		long = append(long, 50+c.r.Intn(30))
+	}
+	for _, n := range long {
+		var es []*ga.Val
+		for i := 0; i < n; i++ {
+			es = append(es, hx.Pick(c.r, vals))
+		}
+		add(false, slice(g.Fresh(), es, nil))
+	}
 	return
 }
 
@@ -146,8 +159,12 @@ func lenClass(n int) string {
 		return "3-4"
 	case n <= 9:
 		return "5-9"
+	case n <= 12:
+		return "10-12"
+	case n <= 50:
+		return "13-50"
 	}
-	return "10+"
+	return "51+"
 }
 
 // canon of a key value (keys are pointer-free): -0 is mapped to +0 so that two keys are == in Go
